@@ -65,6 +65,12 @@ def flatten (payload : J) : Option (List (String × J) × Nat) :=
 
 /-! ## types.go -/
 
+/-- `strings.Split(s, sep)` for a one-character separator (written out so that the kernel can evaluate it) -/
+def splitChars (sep : Char) : List Char → List Char → List (List Char)
+  | [], cur => [cur.reverse]
+  | c :: cs, cur => if c = sep then cur.reverse :: splitChars sep cs [] else splitChars sep cs (c :: cur)
+def splitOn1 (s : String) (sep : Char) : List String := (splitChars sep s.toList []).map String.ofList
+
 def capitalize (s : String) : String :=
   match s.toList with
   | [] => ""
@@ -72,8 +78,8 @@ def capitalize (s : String) : String :=
 
 /-- `sanitizeTypedef`: `_.foo_bar.baz` ↦ `TypeFooBarBaz` -/
 def sanitize (s : String) : String :=
-  String.join ((s.splitOn ".").map (fun part =>
-    if part == "_" then "Type" else String.join ((part.splitOn "_").map capitalize)))
+  String.join ((splitOn1 s '.').map (fun part =>
+    if part == "_" then "Type" else String.join ((splitOn1 part '_').map capitalize)))
 
 def ethTypeOf : J → Option String
   | .bool _ => some "bool"
@@ -144,19 +150,20 @@ def fixedTypes : Types := [
   ("Fee", [("amount", "Coin[]"), ("gas", "string")]),
   ("Coin", [("denom", "string"), ("amount", "string")])]
 
-def lastSegment (s : String) : String := ((s.splitOn "/").getLast?).getD ""
+def lastSegment (s : String) : String := ((splitOn1 s '/').getLast?).getD ""
 
-def jdepth : J → Nat
-  | .arr xs => 1 + (xs.attach.map (fun ⟨x, _⟩ => jdepth x)).foldl max 0
-  | .obj kvs => 1 + (kvs.attach.map (fun ⟨kv, _⟩ => jdepth kv.2)).foldl max 0
-  | _ => 1
-termination_by j => sizeOf j
-decreasing_by
-  · simp_wf; have := List.sizeOf_lt_of_mem ‹_›; omega
-  · simp_wf
-    have h := List.sizeOf_lt_of_mem ‹_›
-    have : sizeOf kv.2 < sizeOf kv := by cases kv; simp; omega
-    omega
+mutual
+  def jdepth : J → Nat
+    | .arr xs => 1 + jdepthList xs
+    | .obj kvs => 1 + jdepthFields kvs
+    | _ => 1
+  def jdepthList : List J → Nat
+    | [] => 0
+    | x :: xs => max (jdepth x) (jdepthList xs)
+  def jdepthFields : List (String × J) → Nat
+    | [] => 0
+    | (_, v) :: r => max (jdepth v) (jdepthFields r)
+end
 
 /-- `createEIP712Types` -/
 def typesOf (msg : List (String × J)) (n : Nat) : Option Types :=
@@ -264,6 +271,26 @@ def encodePrim (ty : String) (v : J) : Option Enc :=
   else if ty = "uint256" then (match v with | .num n => if 0 ≤ n then some (.word n) else none | _ => none)
   else none
 
+/-- element type of an array member: `Coin[]` ↦ `Coin` (`strings.Split(encType, "[")[0]`) -/
+def elemType (ty : String) : String := (splitOn1 ty '[').headD ""
+
+/-- one array item / one struct member; `recur` encodes a nested struct (it is `encodeStruct` with less fuel) -/
+def encodeItem (recur : String → List (String × J) → Option Enc) (t : Types) (pt : String) (item : J) : Option Enc :=
+  if t.has pt then (match item with | .obj kvs => recur pt kvs | _ => none) else encodePrim pt item
+
+def encodeField (recur : String → List (String × J) → Option Enc) (t : Types) (data : List (String × J)) (name ty : String) : Option Enc :=
+  if ty.endsWith "[]" then
+    match lookup data name with
+    | some (.arr items) => (items.mapM (encodeItem recur t (elemType ty))).map Enc.arr
+    | _ => none
+  else if t.has ty then
+    match lookup data name with
+    | some (.obj kvs) => recur ty kvs
+    | _ => none
+  else match lookup data name with
+    | some v => encodePrim ty v
+    | none => none
+
 /-- `EncodeData` + the hash around it (`HashStruct` / the struct case of a member) -/
 def encodeStruct (fuel : Nat) (t : Types) (primary : String) (data : List (String × J)) : Option Enc :=
   match fuel with
@@ -273,24 +300,7 @@ def encodeStruct (fuel : Nat) (t : Types) (primary : String) (data : List (Strin
     | none => if data.length > 0 then none else some (.struct primary [] (encodeType t primary) [])
     | some ms =>
       if ms.length < data.length then none else     -- "there is extra data provided in the message"
-      let encField (name ty : String) : Option Enc :=
-        let v := lookup data name
-        if ty.endsWith "[]" then
-          match v with
-          | some (.arr items) =>
-            let pt := ((ty.splitOn "[").headD "")
-            (items.mapM (fun item =>
-              if t.has pt then (match item with | .obj kvs => encodeStruct fuel t pt kvs | _ => none)
-              else encodePrim pt item)).map Enc.arr
-          | _ => none
-        else if t.has ty then
-          match v with
-          | some (.obj kvs) => encodeStruct fuel t ty kvs
-          | _ => none
-        else match v with
-          | some v => encodePrim ty v
-          | none => none
-      (ms.mapM (fun (n, ty) => encField n ty)).map (Enc.struct primary ms (encodeType t primary))
+      (ms.mapM (fun m => encodeField (encodeStruct fuel t) t data m.1 m.2)).map (Enc.struct primary ms (encodeType t primary))
 
 structure Typed where
   types : Types
